@@ -51,7 +51,10 @@ Favour these styles, one each if you can: (a) state carried across calls or obje
 """
 NEUTRAL_TEXT = """If while exploring you notice a defect of the UNMODIFIED tree that violates the property, mention it at the end of your report with the exact reproducing input (do not use it as a seed).
 """
-text = text.replace("@@EXTRA@@", NEUTRAL_TEXT if NEUTRAL else EXTRA_TEXT)
+GLUE = '--glue' in sys.argv         # wave 8: neutral, but at least one change outside the anchored functions (callers, helpers, utilities, CLI / I/O layers)
+GLUE_TEXT = """At least one of the changes must be made OUTSIDE the function(s) named in the code anchors above - in a caller, a helper, a shared utility module, the command-line layer, the file I/O layer, a base class or a data class the anchored code relies on - while still breaking THIS property as a user would observe it.
+"""
+text = text.replace("@@EXTRA@@", (GLUE_TEXT if GLUE else '') + (NEUTRAL_TEXT if NEUTRAL else EXTRA_TEXT))
 out = Path(root) / '_briefs' / f'{pid}.txt'
 out.parent.mkdir(parents=True, exist_ok=True)
 out.write_text(text)
